@@ -241,6 +241,11 @@ func c08WireCases(t *testing.T, rep *hx.Report, orc *hx.Oracle, rng *hx.RNG, per
 			if c.Engine == "ser" && i%3 != 0 {
 				c.Cfg.Max = c.Cfg.Min + rng.Range(2, 7) // keep silent serial runs (count × 3 s of 100 ms polls) affordable
 			}
+			if i%7 == 6 {
+				// the last TTL values a run can be asked for: the bound must hold up to MaxTTL = 255
+				c.Cfg.Min, c.Cfg.Max = rng.Range(249, 254), 255
+				c.Replies, c.DestAt = map[int][]c05Reply{}, 0
+			}
 			var flood func(w *memWire, stop <-chan struct{})
 			if strings.HasPrefix(mode, "flood") || mode == "bursts" {
 				flood = c08Flood(rng.U64(), c08Noise(t, rng, c.Cfg), mode == "bursts")
